@@ -90,13 +90,26 @@ def check(repo: Repo, rep: Report) -> None:
     n_disp = 0
     for mname in ("schedule", "schedule_relative"):
         m = repo.fn(TS, f"AsyncIOThreadSafeScheduler.{mname}")
-        disp_fns = []
+        loop_cbs = set()
+        for g in m.walk():
+            if g.is_func:
+                for s in sites(g):
+                    if isinstance(s.node, ast.Call) and (dotted(s.node.func) or "").startswith("self._loop.call_"):
+                        for a in s.node.args:
+                            t = resolve_callable(g, a)
+                            if t.kind == "fn":
+                                loop_cbs.add(t.fn)
+        disp_fns = [g for g in m.children if g.is_func and g not in loop_cbs and _reaches_cancel(g)]
+        rep.require(disp_fns, f"dispose closure (local function reaching handle.cancel) in {m.ref}")
+        held = set()
         for s in sites(m):
             if isinstance(s.node, ast.Call) and call_name(s.node) == "Disposable" and s.node.args:
                 t = resolve_callable(m, s.node.args[0])
                 if t.kind == "fn":
-                    disp_fns.append(t.fn)
-        rep.require(disp_fns, f"Disposable(dispose) in {m.ref}")
+                    held.add(t.fn)
+        for d in disp_fns:
+            rep.ob("P4-held-and-delay", m, f"{mname}: Disposable({d.name}) constructed", d in held,
+                   f"the cancel closure {d.name} is not wrapped in a Disposable: nothing can cancel the scheduled action")
         for d in disp_fns:
             n_disp += 1
             # marshalled callbacks: local functions passed to call_soon_threadsafe inside d
